@@ -131,5 +131,7 @@ Lemma repeatz_length {A} (x : A) n : zlen (repeatz x n) = Z.max 0 n.
 Proof. unfold zlen, repeatz. rewrite repeat_length. lia. Qed.
 
 (* slice [off, off+n) of a list, Z-indexed *)
+(* clamped first, so that hostile offsets and lengths never build large unary numbers *)
 Definition slice {A} (l : list A) (off n : Z) : list A :=
-  firstn (Z.to_nat n) (skipn (Z.to_nat off) l).
+  if (off <? 0) || (zlen l <=? off) then []
+  else firstn (Z.to_nat (Z.min n (zlen l - off))) (skipn (Z.to_nat off) l).
